@@ -126,6 +126,13 @@ def handle (req : J) : J :=
         | .error e => .arr [.str "parse-failed", e.toJ]
         | .ok root => resJ PVal.toJ (extractObj envs 1000 root))
      | _, _ => .str "bad-request")
+  | .arr [.str "format", mt, vj, ej, fj] =>
+    (match mt.getStr, PVal.ofJ vj, envsOfJ ej fj with
+     | some mt, some v, some envs =>
+       (match parse mt with
+        | .error e => .arr [.str "parse-failed", e.toJ]
+        | .ok root => resJ Obj.toJ (formatObj envs 1000 root v))
+     | _, _, _ => .str "bad-request")
   | _ => .str "bad-op"
 
 partial def loop (h : IO.FS.Stream) (out : IO.FS.Stream) : IO Unit := do
